@@ -100,6 +100,11 @@ CHECKS = {
          "Monotone: every stream of length 5 (6) over {6 items, a burst of 12, a merge with a fixed sketch} for 5 parameter sets (1.6e5 streams quick) - the estimate never decreases after any step (exact). Parallel estimator: rayon's scheduler cannot be controlled, so its nondeterminism is modelled: for m<=9 (11) and 3 bases ALL Catalan(m-1) bracketings of the sum of register terms are enumerated, each must agree with the sequential estimate within m*2^-52, and the real get_cardinal_estimate run under pools of 1,2,3,4,8,16 threads must be a member of the modelled outcome set (2916 real runs validated); on every accuracy sketch the parallel and sequential estimates must agree to rounding. Accuracy: n in {1,2,10,1e3,1e5,(1e6)} x m in {64,256,(1024,4096)} x 3 (b,q) x u16/u32 x with/without repetition on T disjoint sets (T=36m where the budget allows): |mean(n^/n)-1| <= 2 rsd^2 + 6 se and |sd/rsd-1| <= 0.15 + 6 se, confirmed on a 4x larger fresh block.",
          "rayon reduction modelled as order-preserving bracketings (validated by membership of real runs); accuracy is a finite-population statement (observed bias ~ rsd^2, i.e. half the allowed 2 rsd^2)",
          "DESIGN.md §4 C06"),
+ "C01": ("exploration",
+         "exhaustive enumeration of hash-seed blocks on the real code: single-item race tables against the exponential law, partition estimates of J_P and MSE",
+         "Decomposition: by C02 (decided exactly) a signature is the position-wise argmin of per-item race values that scale as 1/w; given that, unbiasedness for arbitrary weights holds iff each item's value at a position is exponential with a common rate. (1) For EVERY identifier of a block of 2^19 (2^22) and m in {2,3,4,8,16,(64,256)}, variants 2, 3 and 3a-Sha, the single-item registers (hook H2) are compared with Exp(1/m) resp. Exp(ln(m/(m-1))) by KS and the position of the minimum with the uniform law. (2) 12 weighted-set shapes (equal weights, identical, disjoint, nested, weights differing by 1e6, 1 vs 300, 200 pseudo-random weights, common items with different weights, sets of 2/3/4 items) x m in {2,3,8,32,(4,128)} x all 4 variants x alternating entry points, T disjoint labellings: |mean-J_P|<=6se with J_P from its definition and MSE<=J_P(1-J_P)/m+6se. (3) share of positions won by each item of a single weighted set against w/sum(w). Exceedances are confirmed on a 4x larger fresh block before being reported.",
+         "finite-population statements about the enumerated blocks (resolution ~3/sqrt(N)); known finding: MSE excess of the ProbMinHash3 family for m<=3 on sets of 2-3 items",
+         "DESIGN.md §4 C01"),
 }
 PENDING_REASON = "check not built yet in this revision (see DESIGN.md §4 for the planned model-checking approach)"
 
